@@ -64,6 +64,10 @@ CLAIMED = {
         text="SREs from a recursive Hypothesis grammar (depth <= 4-5: literals, strings, char sets, ranges, complements, any/nonl, seq, or, * + ? = >= **, non-greedy forms, submatches, bos/eos/bol/eol, w/nocase, w/case) plus an enumerated family of small SREs, each matched against ALL subject strings up to length 4 (quick) / 7 (thorough) over an alphabet chosen per SRE (abc / aAb / ab+newline); oracle: an independent span-set matcher in Python; checked: regexp-matches? <=> membership, regexp-matches agrees, regexp-search <=> some substring matches, overall and submatch spans delimit text matched by the corresponding subexpression, regexp-fold spans likewise; exploration only",
         note="SREs rejected at compile time are outside the supported subset; which valid match is preferred is not asserted; regexp-fold spans are not asserted for anchored SREs; two open known findings (non-greedy repetition in whole-string mode; or of char sets starting with a complement) are excluded by construction",
         technique="property-based differential testing against an independent reference matcher, exhaustive over subject strings up to a length bound"),
+    "C11": dict(
+        text="programs whose shared accesses are all mutex-protected (generated thread bodies over guarded cells, bags, nested and timed locks, sticky flags with condition variables, joins incl. of raising threads, yields, sleeps, timed waits that must expire, parameterize and dynamic-wind per thread; turn-passing rings; bounded buffers; 2-6 threads) run under schedules injected through the vm.c hook: the length of every time slice comes from an explicit vector and/or a seeded PRNG in [1,max], max from 1 instruction to the default quantum; systematic part: tiny 2-3 thread lock programs under every first-slice length from 1 to the instruction count of the program x a strided grid of second (and sampled third) slice lengths, then the default quantum; oracles: printed result equals a sequential Python model (or, buffer, the validity predicate every item consumed once in per-producer order), in-program assertions (two threads in a critical section, owner of a locked mutex, early wake-up, generous timeout expired) silent, and no lost wake-up / livelock (the run stops consuming CPU, or burns its whole CPU limit, without finishing - must reproduce in re-runs); exploration only",
+        note="trusted: the sequential model; timeouts that must not expire are 1000 s, timeouts that must expire assert only a lower bound; programs need < 0.1 s, the hang limits are 12 s wall / 10 s CPU; a hang seen once and not again in 10 re-runs is counted inconclusive; new threads start with default parameter values (chibi resets them), only per-thread consistency is asserted; I/O-blocked threads and signals are not exercised",
+        technique="property-based testing with schedule injection (generated programs x generated / systematically enumerated time-slice schedules), reference-model and invariant oracles, hang detection"),
     "C14": dict(
         text="Hypothesis-generated library graphs (2-6 define-library files written to a scratch directory: uniquely tagged values, random export subsets, renamed exports, exported syntax-rules macros that expand into a private helper, re-exports through (only ...), a shared logging library called from every body) and import-set expressions (only / except / rename / prefix / drop-prefix nested to depth 4, valid by construction) loaded by a fresh chibi-scheme process per graph; oracle: a set-algebra model in Python, compared name by name ((eval 'n env) under guard) over every name of the graph under every prefix used: bound names must evaluate to the modelled tagged value and every other name must be unbound, exported macros must work while their helper stays unbound, each library body is logged once; exploration only",
         note="trusted: the Python model of R7RS 5.2/5.6 import sets (drop-prefix as implemented: strips the prefix from names that have it); import sets naming unknown identifiers and clashing imports are outside the generated domain; mutation of imported bindings is not asserted",
